@@ -155,8 +155,15 @@ func generate(prop string, seed uint64, run int, tier string) *Scenario {
 
 		for c := range sc.FO.Clients {
 			for i := range sc.FO.Clients[c] {
-				if op := &sc.FO.Clients[c][i]; op.BuildFail && chance(lr, 0.3) {
+				op := &sc.FO.Clients[c][i]
+				if op.BuildFail && chance(lr, 0.3) {
 					op.BuildErrKind = pick(lr, "canceled", "deadline", "notfound", "expired")
+				}
+
+				// builders that need another cached value: nesting only towards higher key indices, so that
+				// the workload itself cannot deadlock
+				if nk := len(sc.FO.Keys); op.Kind == "get" && op.Key < nk-1 && chance(lr, 0.08) {
+					op.NestKey = op.Key + 2 + lr.IntN(nk-1-op.Key)
 				}
 			}
 		}
